@@ -277,7 +277,8 @@ def remove_nodes(source: str, nodes: Iterable[ast.AST], root: ast.Module) -> str
 
         # If multiple "lines" are on the same line, with a semicolon in between,
         # we also need to purge the semicolon and any whitespace before and after it
-        semicolon_anti_delimiters = re.findall(r"^\s*;\s*", source[end:])
+        # (on the same line only: the line break and the next line's indentation are not part of it)
+        semicolon_anti_delimiters = re.findall(r"^[ \t]*;[ \t]*", source[end:])
         if semicolon_anti_delimiters:
             end += len(semicolon_anti_delimiters[0])
 
